@@ -1,4 +1,4 @@
-\* devNoAttach2
+\* negative control: must violate Inv_W1
 SPECIFICATION Spec
 CONSTANTS
   Cand <- Cand3
